@@ -188,6 +188,7 @@ class Analysis:
                         self.state[(rel, f"{cq}.{tgt}")] = v
         self.events = []
         self.cached_fns = {k for k, f in self.fns.items() if f.cached}
+        _AN[0] = self
         self._run()
 
     # ------------------------------------------------------------ naming --
@@ -800,11 +801,68 @@ def single_rebinding_free(fn, param):
     return not any(isinstance(n, ast.Name) and n.id == param and isinstance(n.ctx, ast.Store) for n in fn.own)
 
 
-def deps(an, fn, expr, exclude_state=()):
-    """Parameters and module-level state that `expr` may depend on: through local assignments (flow-insensitive), and through
-    the module state read by package functions it calls."""
+def _binds(stmt, name):
+    """Does `stmt` (anywhere inside, not descending into nested defs) bind / rebind / delete the local `name`?"""
+    for n in [stmt] + list(_own(stmt)):
+        if isinstance(n, ast.Name) and n.id == name and isinstance(n.ctx, (ast.Store, ast.Del)):
+            return True
+    return False
+
+
+def reaching_def(fn, name, at):
+    """The ONE assignment `name = <expr>` that reaches the statement containing `at` on every path, found by scanning the
+    statements before it in its own block and then in the enclosing blocks; None when another binding may intervene (a compound
+    statement binding the name, a loop around it that rebinds it) or none is found.  -> (value expr, assignment stmt) | None"""
+    pm = getattr(fn, "_pm", None) or parents_of(fn)
+    fn._pm = pm
+    s = at
+    while s is not None and not isinstance(s, ast.stmt):
+        s = pm.get(id(s))
+    while s is not None and s is not fn.node:
+        parent = pm.get(id(s))
+        block = None
+        for fld in ("body", "orelse", "finalbody"):
+            lst = getattr(parent, fld, None)
+            if isinstance(lst, list) and any(x is s for x in lst):
+                block = lst
+        if block is None and isinstance(parent, ast.ExceptHandler):
+            block = parent.body
+        if block is None:
+            s = parent
+            continue
+        idx = next(i for i, x in enumerate(block) if x is s)
+        for t in reversed(block[:idx]):
+            if isinstance(t, ast.Assign) and len(t.targets) == 1 and isinstance(t.targets[0], ast.Name) and t.targets[0].id == name:
+                return (t.value, t)
+            if isinstance(t, ast.AnnAssign) and isinstance(t.target, ast.Name) and t.target.id == name and t.value is not None:
+                return (t.value, t)
+            if isinstance(t, ast.Assign) and len(t.targets) == 1 and isinstance(t.targets[0], (ast.Tuple, ast.List)) \
+                    and any(isinstance(e, ast.Name) and e.id == name for e in t.targets[0].elts):
+                i = next(i for i, e in enumerate(t.targets[0].elts) if isinstance(e, ast.Name) and e.id == name)
+                return (("component", i, t.value), t)
+            if _binds(t, name):
+                return None
+        if isinstance(parent, (ast.For, ast.While, ast.AsyncFor)) and _binds(parent, name):
+            return None
+        if isinstance(parent, (ast.With, ast.AsyncWith)) and any(it.optional_vars is not None and _binds(it.optional_vars, name) for it in parent.items):
+            return None
+        if isinstance(parent, ast.If) and _binds(parent.test, name):
+            return None                                        # walrus in the test: the branch decides what reaches
+        s = parent
+        while s is not None and not isinstance(s, (ast.stmt, ast.ExceptHandler)):
+            s = pm.get(id(s))
+        if isinstance(s, ast.ExceptHandler):
+            s = pm.get(id(s))
+    return None
+
+
+def deps(an, fn, expr, exclude_state=(), at=None):
+    """Parameters and module-level state that `expr` may depend on: through local assignments, and through the module state read
+    by package functions it calls.  Flow-insensitive, except that a local whose single reaching definition at `at` is found
+    (reaching_def) takes the dependencies of that definition only."""
     params = fn.all_params
     dep = {p: {p} for p in params}
+    mutdep = {}            # what flows INTO the object a local names by mutation (x[k] = v, x.append(v), x += v): survives any rebinding analysis
 
     def of(e):
         d = set()
@@ -843,6 +901,7 @@ def deps(an, fn, expr, exclude_state=()):
                     for a in n.args:
                         d |= of(a)
                     dep[b.id] = dep.get(b.id, set()) | d
+                    mutdep[b.id] = mutdep.get(b.id, set()) | d
                 continue
             if val is None:
                 continue
@@ -852,13 +911,41 @@ def deps(an, fn, expr, exclude_state=()):
                 for e in elts:
                     b = e.value if isinstance(e, ast.Starred) else e
                     extra = set()
+                    through = isinstance(b, (ast.Subscript, ast.Attribute)) or isinstance(n, ast.AugAssign)
                     while isinstance(b, (ast.Subscript, ast.Attribute)):
                         if isinstance(b, ast.Subscript):
                             extra |= of(b.slice)
                         b = b.value
                     if isinstance(b, ast.Name):
                         dep[b.id] = dep.get(b.id, set()) | d | extra
-    out = of(expr)
+                        if through:
+                            mutdep[b.id] = mutdep.get(b.id, set()) | d | extra
+    def of_at(e, where, depth=0):
+        if where is None or depth > 6:
+            return of(e)
+        d = set()
+        stack = [e]
+        while stack:
+            x = stack.pop()
+            if isinstance(x, ast.Name) and x.id in fn.locals and isinstance(x.ctx, ast.Load):
+                rd = reaching_def(fn, x.id, where)
+                if rd is None:
+                    d |= dep.get(x.id, set())
+                else:
+                    val, stmt = rd
+                    if isinstance(val, tuple):
+                        val = val[2]
+                    d |= of_at(val, stmt, depth + 1) | mutdep.get(x.id, set())
+                continue
+            if isinstance(x, ast.Name) or isinstance(x, ast.Call):
+                d |= of(x) if isinstance(x, ast.Name) else {"state:" + s_ for k_ in [an.resolve_call(fn, x)] if k_ is not None for s_ in an.fns[k_].reads}
+            if isinstance(x, (ast.ListComp, ast.SetComp, ast.DictComp, ast.GeneratorExp, ast.Lambda)):
+                d |= of(x)                                      # own scopes: flow-insensitive
+                continue
+            stack.extend(ast.iter_child_nodes(x))
+        return d
+
+    out = of_at(expr, at)
     live = {"state:" + s for s in an.written_states()} - {"state:" + s for s in exclude_state}     # tables nobody writes are constants
     return {x for x in out if not x.startswith("state:") or x in live}
 
@@ -914,16 +1001,28 @@ def content_writes(an, x):
 
 
 def miss_guard(an, fn, node, x):
-    """The write at `node` happens only after a miss: an `if` of `fn` that tests the state x (or something selected from it) and
-    either precedes `node` and leaves the function / iteration in its body (`if hit: return ...`), or contains `node` in its
-    body (`if <missing>: create and store`)."""
+    """The write at `node` happens only after a miss of the state's own lookup.  Recognised (up to negation of the test, which
+    only swaps the branches): an `if` that tests the state x or something selected from it and
+      * precedes `node` and leaves the function / iteration in one branch (`if hit: return ...`), `node` not in that `if`;
+      * or contains `node` in its body or else-branch (`if missing: create and store`, `if hit: ... else: store`);
+    a conditional expression / `or` with the lookup in its test is not a statement and is not recognised; EAFP:
+      * `node` inside an `except KeyError / LookupError` handler of a `try` whose body reads the state, or after such a `try`
+        whose body returns."""
     pm = parents_of(fn)
     for g in fn.own:
-        if isinstance(g, ast.If) and g.lineno < node.lineno and mentions_state(an, fn, g.test, x):
-            if exits(g.body) and not inside(pm, node, g.body + g.orelse):
+        if isinstance(g, ast.If) and g.lineno <= node.lineno and mentions_state(an, fn, g.test, x):
+            if inside(pm, node, g.body) or inside(pm, node, g.orelse):
                 return g
-            if inside(pm, node, g.body):
+            if (exits(g.body) or exits(g.orelse)) and g.end_lineno < node.lineno:
                 return g
+        if isinstance(g, ast.Try) and g.lineno <= node.lineno and any(mentions_state(an, fn, s_, x) for s_ in g.body):
+            for h in g.handlers:
+                names = [] if h.type is None else [dotted(t) for t in (h.type.elts if isinstance(h.type, ast.Tuple) else [h.type])]
+                if set(names) & {"KeyError", "LookupError"}:
+                    if inside(pm, node, h.body):
+                        return g
+                    if exits(g.body) and g.end_lineno < node.lineno:
+                        return g
     return None
 
 
@@ -942,14 +1041,26 @@ def emptiness_guards(an, x):
             if isinstance(t, ast.Call) and dotted(t.func) == "len" and len(t.args) == 1:
                 t = t.args[0]
             elif isinstance(t, ast.Compare) and len(t.ops) == 1 and isinstance(t.left, ast.Call) and dotted(t.left.func) == "len" and len(t.left.args) == 1 \
-                    and isinstance(t.comparators[0], ast.Constant) and t.comparators[0].value == 0:
-                if isinstance(t.ops[0], (ast.Eq, ast.LtE)):
+                    and isinstance(t.comparators[0], ast.Constant) and t.comparators[0].value in (0, 1):
+                op, c = t.ops[0], t.comparators[0].value
+                empty_test = (c == 0 and isinstance(op, (ast.Eq, ast.LtE))) or (c == 1 and isinstance(op, ast.Lt))
+                nonempty_test = (c == 0 and isinstance(op, (ast.NotEq, ast.Gt))) or (c == 1 and isinstance(op, ast.GtE))
+                if not (empty_test or nonempty_test):
+                    continue
+                if empty_test:
                     neg = not neg
                 t = t.left.args[0]
+            elif isinstance(t, ast.Compare) and len(t.ops) == 1 and isinstance(t.ops[0], (ast.Eq, ast.NotEq)) and isinstance(t.comparators[0], (ast.Dict, ast.List, ast.Set)) \
+                    and not getattr(t.comparators[0], "keys", getattr(t.comparators[0], "elts", None)):
+                if isinstance(t.ops[0], ast.Eq):
+                    neg = not neg
+                t = t.left
             if not is_state_expr(an, fn, t, x):
                 continue
             if not neg and exits(g.body):
                 out.append((fn, g, "nonempty-return"))
+            elif not neg and g.orelse:
+                out.append((fn, g, "populate-in-else"))
             elif neg:
                 out.append((fn, g, "empty-populate"))
     return out
@@ -979,17 +1090,35 @@ def tolerant_or_locked(fn, node):
                 names = [] if h.type is None else [dotted(t) for t in (h.type.elts if isinstance(h.type, ast.Tuple) else [h.type])]
                 if h.type is None or set(names) & {"KeyError", "LookupError", "Exception", "BaseException"}:
                     return True
-        if isinstance(n, (ast.With, ast.AsyncWith)) and any("lock" in ast.unparse(it.context_expr).lower() for it in n.items):
+        if isinstance(n, (ast.With, ast.AsyncWith)) and any(is_lock_expr(fn, it.context_expr) for it in n.items):
             return True
         child, n = n, pm.get(id(n))
     return False
+
+
+LOCK_FACTORIES = {"threading.Lock", "threading.RLock", "Lock", "RLock", "threading.Semaphore", "threading.BoundedSemaphore", "threading.Condition",
+                  "multiprocessing.Lock", "multiprocessing.RLock"}
+_AN = [None]          # the analysis in use (lets locked() resolve a with-item to a module-level lock object)
+
+
+def is_lock_expr(fn, e):
+    """A with-item that is a lock: a module- / class-level name bound to threading.Lock() / RLock() ... (also through an import or
+    an attribute of self), else -- unresolved -- an expression whose text says so."""
+    an = _AN[0]
+    if an is not None and isinstance(e, ast.Name) and e.id not in fn.locals:
+        r = an.resolve_name(fn.rel, e.id)
+        if r and r[0] == "state":
+            v = an.state.get((r[1], r[2]))
+            if isinstance(v, ast.Call) and dotted(v.func) in LOCK_FACTORIES:
+                return True
+    return "lock" in ast.unparse(e).lower() or "mutex" in ast.unparse(e).lower()
 
 
 def locked(fn, node):
     pm = parents_of(fn)
     n = pm.get(id(node))
     while n is not None and n is not fn.node:
-        if isinstance(n, (ast.With, ast.AsyncWith)) and any("lock" in ast.unparse(it.context_expr).lower() for it in n.items):
+        if isinstance(n, (ast.With, ast.AsyncWith)) and any(is_lock_expr(fn, it.context_expr) for it in n.items):
             return True
         n = pm.get(id(n))
     return False
@@ -1010,3 +1139,459 @@ def touching_functions(an, x):
                     out.add(fn.node.name)
                     break
     return sorted(out)
+
+
+# ------------------------------------------------------- interprocedural helpers (round 3) --
+def callers(an):
+    """callee key -> [(caller Fn, call node)] over the whole package (resolved calls only; `with f():` and decorators count)."""
+    cm = getattr(an, "_callers", None)
+    if cm is None:
+        cm = {}
+        for fn in an.fns.values():
+            for n in fn.own:
+                if isinstance(n, ast.Call):
+                    k = an.resolve_call(fn, n)
+                    if k is not None and k != fn.key():
+                        cm.setdefault(k, []).append((fn, n))
+        an._callers = cm
+    return cm
+
+
+def referenced_elsewhere(an, fn):
+    """Is the function used as a value (callback, table entry, re-export) somewhere in the package, i.e. may it have callers the
+    call graph does not show?"""
+    name = fn.node.name
+    for g in an.fns.values():
+        for n in g.own:
+            if isinstance(n, ast.Name) and n.id == name and isinstance(n.ctx, ast.Load) and g.key() != fn.key():
+                r = an.resolve_name(g.rel, name)
+                if r and r[0] == "fn" and r[1] == fn.key():
+                    # a plain call is in the call graph already
+                    pm = getattr(g, "_pm", None) or parents_of(g)
+                    g._pm = pm
+                    p = pm.get(id(n))
+                    if not (isinstance(p, ast.Call) and p.func is n):
+                        return True
+    return False
+
+
+def guard_chains(an, fn, node, x, depth=0):
+    """Where is the write at `node` (in `fn`) guarded by a miss of the state's own lookup?  -> [(root Fn, guarded?, chain)] with
+    chain = [(caller Fn, call node), ...] from the innermost caller outwards.  A helper that stores into the cache is "after a
+    miss" if every call site is (recursively, three levels)."""
+    if miss_guard(an, fn, node, x) is not None:
+        return [(fn, True, [])]
+    cs = callers(an).get(fn.key(), [])
+    if not cs or depth >= 3 or referenced_elsewhere(an, fn):
+        return [(fn, False, [])]
+    out = []
+    for (g, call) in cs:
+        for (root, ok, ch) in guard_chains(an, g, call, x, depth + 1):
+            out.append((root, ok, [(g, call)] + ch))
+    return out
+
+
+def arg_of(an, caller, call, callee, param):
+    """The argument expression bound to `param` of `callee` at `call` (None: default / not passed)."""
+    c2, bound = an.call_binding(caller, call)
+    if c2 is None or c2.key() != callee.key():
+        return None
+    for (p, a) in bound:
+        if p == param:
+            return a
+    return None
+
+
+def lift_deps(an, fn, d, chain):
+    """Dependencies `d` (parameters of `fn` and module state) expressed in terms of the root of `chain`: a parameter becomes
+    whatever its argument depends on at the call site; a constant argument (imported module, literal) contributes nothing."""
+    cur, cur_d = fn, set(d)
+    for (g, call) in chain:
+        nxt = set()
+        for p in cur_d:
+            if p.startswith("state:"):
+                nxt.add(p)
+                continue
+            a = arg_of(an, g, call, cur, p)
+            if a is not None:
+                nxt |= deps(an, g, a)
+        cur, cur_d = g, nxt
+    return cur_d
+
+
+def lift_expr_text(an, fn, expr, chain):
+    """Source text of `expr` with the parameters of `fn` replaced by the argument expressions along `chain` (for comparing a
+    helper's store key with the root's lookup key)."""
+    cur, e = fn, expr
+    for (g, call) in chain:
+        class Sub(ast.NodeTransformer):
+            def visit_Name(self, n):
+                if n.id in cur.all_params and single_rebinding_free(cur, n.id):
+                    a = arg_of(an, g, call, cur, n.id)
+                    if a is not None:
+                        return a
+                return n
+        import copy
+        e = Sub().visit(copy.deepcopy(e))
+        cur = g
+    return ast.unparse(e)
+
+
+def dict_sources(an, fn, expr, chain=(), depth=0):
+    """What a dict-valued expression holds, as keyed (key expr, value expr) pairs: -> [(site Fn, key, value, chain, how)] or None
+    when the shape is not recognised.  Understands dict displays, dict comprehensions, local staging dicts (`d[k] = v` stores),
+    `dict(<local or display>)` copies and package helpers returning one of those (`chain` records the call sites for lifting)."""
+    if depth > 4 or expr is None:
+        return None
+    if isinstance(expr, ast.Dict):
+        if any(k is None for k in expr.keys):
+            return None
+        return [(fn, k, v, tuple(chain), f"line {expr.lineno}: dict display") for k, v in zip(expr.keys, expr.values)]
+    if isinstance(expr, ast.DictComp):
+        return [(fn, expr.key, expr.value, tuple(chain), f"line {expr.lineno}: dict comprehension")]
+    if isinstance(expr, ast.Name) and expr.id in fn.locals and expr.id not in fn.all_params:
+        out, seen = [], False
+        for n in fn.own:
+            if isinstance(n, (ast.Assign, ast.AnnAssign)) and getattr(n, "value", None) is not None:
+                tgts = n.targets if isinstance(n, ast.Assign) else [n.target]
+                for t in tgts:
+                    if isinstance(t, ast.Name) and t.id == expr.id:
+                        seen = True
+                        if isinstance(n.value, ast.Dict) and not n.value.keys:
+                            continue                                  # d = {}
+                        if isinstance(n.value, ast.Call) and dotted(n.value.func) in ("dict", "OrderedDict", "collections.OrderedDict") and not n.value.args and not n.value.keywords:
+                            continue                                  # d = dict()
+                        sub = dict_sources(an, fn, n.value, chain, depth + 1)
+                        if sub is None:
+                            return None
+                        out += sub
+                    elif isinstance(t, ast.Subscript) and isinstance(t.value, ast.Name) and t.value.id == expr.id and not isinstance(t.slice, ast.Slice):
+                        out.append((fn, t.slice, n.value, tuple(chain), f"line {n.lineno}: {ast.unparse(t)} staged"))
+            elif isinstance(n, ast.Call) and isinstance(n.func, ast.Attribute) and isinstance(n.func.value, ast.Name) and n.func.value.id == expr.id:
+                if n.func.attr == "setdefault" and len(n.args) == 2:
+                    out.append((fn, n.args[0], n.args[1], tuple(chain), f"line {n.lineno}: setdefault staged"))
+                elif n.func.attr == "update" and len(n.args) == 1:
+                    sub = dict_sources(an, fn, n.args[0], chain, depth + 1)
+                    if sub is None:
+                        return None
+                    out += sub
+                elif n.func.attr in DEF_MUTATORS and n.func.attr not in REMOVALS:
+                    return None
+        return out if seen else None
+    if isinstance(expr, ast.Call):
+        d = dotted(expr.func)
+        if d in ("dict", "OrderedDict", "collections.OrderedDict") and len(expr.args) == 1 and not expr.keywords:
+            return dict_sources(an, fn, expr.args[0], chain, depth + 1)
+        callee, _bound = an.call_binding(fn, expr)
+        if callee is not None and not callee.cached:
+            rets = [n.value for n in callee.own if isinstance(n, ast.Return)]
+            if not rets or any(r is None for r in rets) or any(isinstance(n, (ast.Yield, ast.YieldFrom)) for n in callee.own if not _in_genexp(callee, n)):
+                return None
+            out = []
+            for r in rets:
+                sub = dict_sources(an, callee, r, ((fn, expr),) + tuple(chain), depth + 1)
+                if sub is None:
+                    return None
+                out += sub
+            return out
+    return None
+
+
+def _in_genexp(fn, node):
+    return False
+
+
+def value_origins(an, fn, expr, depth=0, chain_up=True):
+    """Where the value of `expr` comes from, for "what does this patch install?": a set of
+       ('fn', name) module-level function / ('nested', name) closure defined in an enclosing function / ('foreign', dotted) an
+       attribute of another library / ('unknown', text).  Follows single assignments, dict displays iterated with .items() /
+       .values(), tuple targets of for-loops, and parameters to the arguments at every call site."""
+    if depth > 6 or expr is None:
+        return {("unknown", "depth")}
+    if isinstance(expr, ast.Name):
+        name = expr.id
+        g = fn
+        while g is not None:                                  # nested function objects
+            if (g.rel, f"{g.q}.<locals>.{name}") in an.fns:
+                return {("nested", f"{g.q}.<locals>.{name}")}
+            g = an.fns.get(g.parent) if g.parent else None
+        if name in fn.all_params and single_rebinding_free(fn, name):
+            cs = callers(an).get(fn.key(), [])
+            if not cs or not chain_up:
+                return {("unknown", f"parameter {name}")}
+            out = set()
+            for (c, call) in cs:
+                a = arg_of(an, c, call, fn, name)
+                out |= value_origins(an, c, a, depth + 1) if a is not None else {("unknown", f"default of {name}")}
+            return out
+        if name in fn.locals:
+            v = single_assignment(fn, name)
+            if v is not None:
+                return value_origins(an, fn, v, depth + 1)
+            # loop target: for k, v in D.items() / for v in D.values() / for v in (a, b)
+            for n in fn.own:
+                if isinstance(n, (ast.For, ast.comprehension)):
+                    tg = n.target
+                    elts = tg.elts if isinstance(tg, (ast.Tuple, ast.List)) else [tg]
+                    idx = next((i for i, e in enumerate(elts) if isinstance(e, ast.Name) and e.id == name), None)
+                    if idx is None:
+                        continue
+                    it = n.iter
+                    if isinstance(it, ast.Call) and isinstance(it.func, ast.Attribute) and it.func.attr in ("items", "values") and not it.args:
+                        src = dict_sources(an, fn, it.func.value) if not (isinstance(it.func.value, ast.Name) and it.func.value.id in fn.all_params) else None
+                        if src is None and isinstance(it.func.value, ast.Name) and it.func.value.id in fn.all_params:
+                            # the dict is a parameter: look at what the callers pass
+                            out = set()
+                            for (c, call) in callers(an).get(fn.key(), []):
+                                a = arg_of(an, c, call, fn, it.func.value.id)
+                                s2 = dict_sources(an, c, a) if a is not None else None
+                                if s2 is None:
+                                    return {("unknown", f"dict passed as {it.func.value.id}")}
+                                for (sf, k, v, _ch, _how) in s2:
+                                    out |= value_origins(an, sf, k if (it.func.attr == "items" and idx == 0 and len(elts) == 2) else v, depth + 1)
+                            return out or {("unknown", f"{name}: no caller")}
+                        if src is not None:
+                            out = set()
+                            for (sf, k, v, _ch, _how) in src:
+                                out |= value_origins(an, sf, k if (it.func.attr == "items" and idx == 0 and len(elts) == 2) else v, depth + 1)
+                            return out
+                    if isinstance(it, (ast.Tuple, ast.List)):
+                        out = set()
+                        for e in it.elts:
+                            if isinstance(e, (ast.Tuple, ast.List)) and len(elts) > 1 and idx < len(e.elts):
+                                out |= value_origins(an, fn, e.elts[idx], depth + 1)
+                            elif len(elts) == 1:
+                                out |= value_origins(an, fn, e, depth + 1)
+                            else:
+                                return {("unknown", name)}
+                        return out
+            return {("unknown", name)}
+        r = an.resolve_name(fn.rel, name)
+        if r and r[0] == "fn":
+            return {("fn", r[1][1])}
+        if r and r[0] == "class":
+            return {("class", r[2])}
+        org = an.imports[fn.rel].get(name)
+        if org and not org.startswith("sharepoint2text"):
+            return {("foreign", org)}
+        return {("unknown", name)}
+    if isinstance(expr, ast.Attribute):
+        base = value_origins(an, fn, expr.value, depth + 1)
+        if all(k == "foreign" for (k, _v) in base):
+            return {("foreign", f"{v}.{expr.attr}") for (_k, v) in base}
+        return {("unknown", ast.unparse(expr)[:40])}
+    if isinstance(expr, ast.IfExp):
+        return value_origins(an, fn, expr.body, depth + 1) | value_origins(an, fn, expr.orelse, depth + 1)
+    if isinstance(expr, ast.Constant):
+        return {("const", repr(expr.value)[:20])}
+    if isinstance(expr, ast.Lambda):
+        return {("unknown", "lambda")}
+    return {("unknown", ast.unparse(expr)[:40])}
+
+
+def top_chains(an, fn, stop=(), depth=0, seen=()):
+    """Call chains from `fn` up to functions nobody in the package calls (or that are in `stop`): [[Fn, ..., top Fn]]."""
+    if fn.key() in stop or depth >= 6 or fn.key() in seen:
+        return [[fn]]
+    cs = callers(an).get(fn.key(), [])
+    if not cs:
+        return [[fn]]
+    out = []
+    for (g, _call) in cs:
+        for ch in top_chains(an, g, stop, depth + 1, seen + (fn.key(),)):
+            out.append([fn] + ch)
+    return out
+
+
+def site_locked(an, fn, node, stop=(), depth=0):
+    """The statement runs under a lock: in its own function, or at every call site of that function (up to a root in `stop`)."""
+    if locked(fn, node):
+        return True
+    if fn.key() in stop or depth >= 4:
+        return False
+    cs = callers(an).get(fn.key(), [])
+    return bool(cs) and all(site_locked(an, g, call, stop, depth + 1) for (g, call) in cs)
+
+
+def is_generator(fn):
+    return any(isinstance(n, (ast.Yield, ast.YieldFrom)) for n in fn.own)
+
+
+def is_context_manager(fn):
+    return any("contextmanager" in ast.unparse(d) for d in fn.node.decorator_list)
+
+
+def root_name(n):
+    while isinstance(n, (ast.Attribute, ast.Subscript)):
+        n = n.value
+    return n.id if isinstance(n, ast.Name) else None
+
+
+def receiver_of(node, pred):
+    """The expression denoting the object that the statement / call `node` mutates (the one satisfying `pred`), or None."""
+    cands = []
+    if isinstance(node, ast.Call):
+        d = dotted(node.func)
+        if d in ("setattr", "delattr") and node.args:
+            cands.append(node.args[0])
+        if isinstance(node.func, ast.Attribute):
+            cands.append(node.func.value)
+        cands += list(node.args) + [k.value for k in node.keywords]
+    elif isinstance(node, (ast.Assign, ast.AugAssign, ast.AnnAssign, ast.Delete)):
+        tgts = node.targets if isinstance(node, (ast.Assign, ast.Delete)) else [node.target]
+        for t in tgts:
+            for e in (t.elts if isinstance(t, (ast.Tuple, ast.List)) else [t]):
+                if isinstance(e, (ast.Attribute, ast.Subscript)):
+                    cands.append(e.value)
+                else:
+                    cands.append(e)
+    for c in cands:
+        try:
+            if pred(c):
+                return c
+        except Exception:  # noqa
+            continue
+    return None
+
+
+def origin_roots(an, fn, recv, depth=0):
+    """The functions on whose behalf `recv` (an expression of `fn` denoting a shared object) is touched: where the object is
+    *named* rather than received -- climbs to the callers as long as the object arrives through a parameter."""
+    labs = an.L(fn, recv, recv)
+    params = sorted({l[2:] for l in labs if l.startswith("P:")})
+    cs = callers(an).get(fn.key(), [])
+    if not params or not cs or depth >= 4:
+        return [fn]
+    out = []
+    for (g, call) in cs:
+        for p in params:
+            a = arg_of(an, g, call, fn, p)
+            if a is not None:
+                out += origin_roots(an, g, a, depth + 1)
+    uniq = {}
+    for r in out:
+        uniq[r.key()] = r
+    return list(uniq.values()) or [fn]
+
+
+def resolve_alias_text(fn, text):
+    """`text` with a local that is bound exactly once replaced by what it is bound to (so `k = (a, b); C[k]` and `C[(a, b)]` agree)."""
+    try:
+        e = ast.parse(text, mode="eval").body
+    except SyntaxError:
+        return text
+    for _ in range(3):
+        if isinstance(e, ast.Name) and e.id in fn.locals and e.id not in fn.all_params:
+            v = single_assignment(fn, e.id)
+            if v is None:
+                break
+            e = v
+        else:
+            break
+    return ast.unparse(e)
+
+
+def _stmt_of(fn, node):
+    pm = getattr(fn, "_pm", None) or parents_of(fn)
+    fn._pm = pm
+    s = node
+    while s is not None and not isinstance(s, ast.stmt):
+        s = pm.get(id(s))
+    return s
+
+
+def _dominates_in_block(fn, first, later):
+    """`first` (a statement) is an earlier sibling of the statement containing `later`, or of one of its ancestors."""
+    pm = getattr(fn, "_pm", None) or parents_of(fn)
+    fn._pm = pm
+    parent = pm.get(id(first))
+    s = _stmt_of(fn, later)
+    while s is not None and s is not fn.node:
+        if pm.get(id(s)) is parent:
+            for fld in ("body", "orelse", "finalbody"):
+                lst = getattr(parent, fld, None)
+                if isinstance(lst, list) and any(t is first for t in lst) and any(t is s for t in lst):
+                    return [i for i, t in enumerate(lst) if t is first][0] < [i for i, t in enumerate(lst) if t is s][0]
+            return False
+        s = pm.get(id(s))
+        while s is not None and not isinstance(s, ast.stmt):
+            s = pm.get(id(s))
+    return False
+
+
+def must_carry(an, fn, expr, at, x, depth=0):
+    """Does `expr`, evaluated at `at`, CERTAINLY denote the state object x ('S') or an object it holds / has handed out ('V')?
+    Only flows that hold on every path count: the single reaching definition of a local, selections on the state object, results
+    of package functions all of whose (non-None) returns do, and a local that an earlier statement of the same block stored
+    into the state.  None: not certain (the may-analysis may still say so)."""
+    if depth > 6 or expr is None:
+        return None
+    if isinstance(expr, ast.Name):
+        name = expr.id
+        if name not in fn.locals:
+            r = an.resolve_name(fn.rel, name)
+            return "S" if (r and r[0] == "state" and an.sid(r[1], r[2]) == x) else None
+        for (sx, store) in fn.pubs.get(name, ()):
+            st_stmt = _stmt_of(fn, store)
+            if sx == x and st_stmt is not None and _dominates_in_block(fn, st_stmt, at):
+                a, b = reaching_def(fn, name, at), reaching_def(fn, name, st_stmt)
+                if (a is None and b is None and not any(_binds(t, name) for t in _between(fn, st_stmt, at))) or (a is not None and b is not None and a[1] is b[1]):
+                    return "V"
+        rd = reaching_def(fn, name, at)
+        if rd is None:
+            return None
+        val, stmt = rd
+        if isinstance(val, tuple):
+            b = must_carry(an, fn, val[2], stmt, x, depth + 1)
+            return "V" if b else None
+        return must_carry(an, fn, val, stmt, x, depth + 1)
+    if isinstance(expr, ast.Attribute) or (isinstance(expr, ast.Subscript) and not isinstance(expr.slice, ast.Slice)):
+        b = must_carry(an, fn, expr.value, at, x, depth + 1)
+        return "V" if b else None
+    if isinstance(expr, ast.NamedExpr):
+        return must_carry(an, fn, expr.value, at, x, depth + 1)
+    if isinstance(expr, ast.IfExp):
+        a, b = must_carry(an, fn, expr.body, at, x, depth + 1), must_carry(an, fn, expr.orelse, at, x, depth + 1)
+        return a if a and a == b else None
+    if isinstance(expr, ast.Call):
+        f = expr.func
+        if dotted(f) == "getattr" and expr.args:
+            return "V" if must_carry(an, fn, expr.args[0], at, x, depth + 1) else None
+        if isinstance(f, ast.Attribute) and f.attr in SELECTORS:
+            callee, _b = an.call_binding(fn, expr)
+            if callee is None:
+                return "V" if must_carry(an, fn, f.value, at, x, depth + 1) else None
+        callee, _b = an.call_binding(fn, expr)
+        if callee is not None:
+            rets = [n for n in callee.own if isinstance(n, ast.Return) and n.value is not None and not (isinstance(n.value, ast.Constant) and n.value.value is None)]
+            kinds = {must_carry(an, callee, r.value, r, x, depth + 1) for r in rets}
+            if rets and len(kinds) == 1 and None not in kinds:
+                return kinds.pop()
+    return None
+
+
+def _between(fn, first, later):
+    pm = getattr(fn, "_pm", None) or parents_of(fn)
+    parent = pm.get(id(first))
+    s = _stmt_of(fn, later)
+    while s is not None and pm.get(id(s)) is not parent:
+        s = pm.get(id(s))
+    for fld in ("body", "orelse", "finalbody"):
+        lst = getattr(parent, fld, None)
+        if isinstance(lst, list) and any(t is first for t in lst) and s is not None and any(t is s for t in lst):
+            i, j = [k for k, t in enumerate(lst) if t is first][0], [k for k, t in enumerate(lst) if t is s][0]
+            return lst[i + 1:j]
+    return []
+
+
+def certain_mutation(an, e):
+    """A vmut / write event whose mutation form is definite AND whose receiver certainly is the published / state object."""
+    if not e["definite"]:
+        return False
+    fn = an.fns[e["fn"]]
+    lab = ("V:" if e["kind"] == "vmut" else "S:") + e["state"]
+    recv = receiver_of(e["node"], lambda t: lab in an.L(fn, t, e["node"]))
+    if recv is None:
+        return False
+    # passed to a function that mutates its parameter: certain only if the callee's own mutation is a definite form
+    return must_carry(an, fn, recv, e["node"], e["state"]) is not None
